@@ -111,6 +111,31 @@ public:
     BN_free(y);
     BN_free(s);
   }
+  // Choose a new private exponent such that the shared secret with the (already known) remote key
+  // y96 starts with a zero byte (1 in 256 exchanges in the wild): exercises the left-padding of S.
+  // Returns false if none was found within the try budget.
+  bool rekey_leading_zero(const std::string& y96, uint64_t seed, int tries = 20000) {
+    BIGNUM* y = BN_bin2bn((const unsigned char*)y96.data(), 96, nullptr);
+    BIGNUM* s = BN_new();
+    BN_CTX* ctx = BN_CTX_new();
+    bool found = false;
+    for (int i = 0; i < tries && !found; i++) {
+      std::string x = mse_sha1("mse-private-lz-" + std::to_string(seed) + "-" + std::to_string(i));
+      BIGNUM* bx = BN_bin2bn((const unsigned char*)x.data(), 20, nullptr);
+      BN_mod_exp(s, y, bx, m_p, ctx);
+      if (BN_num_bytes(s) < 96) {
+        BN_free(m_x);
+        m_x = bx;
+        BN_mod_exp(m_y, m_g, m_x, m_p, ctx);
+        S = pad96(s);
+        found = true;
+      } else BN_free(bx);
+    }
+    BN_CTX_free(ctx);
+    BN_free(y);
+    BN_free(s);
+    return found;
+  }
   std::string req1() const { return mse_sha1("req1" + S); }
   std::string req2xor3(const std::string& skey) const {
     std::string a = mse_sha1("req2" + skey), b = mse_sha1("req3" + S);
